@@ -148,6 +148,21 @@ CLAIMED = {
         "over budget are checked by round trip only; x86-64 long double layout assumed.",
    technique="TLA+ format grammar evaluated by TLC on implementation output (direction B) + TLC-generated streams and histories replayed (direction A)",
    design="DESIGN.md §4 C11, §3.8"),
+ "C12": dict(level="model_checking",
+   text="TLC checks a branch-by-branch transcription of reduce_decode_start/get/finish (spec/Reduce.tla), with every bounds check and explicit "
+        "out-of-bounds/unwritten-cell states, against an abstract stream layer (grammar, ValidStream, Expand, Serialise). Lossless, Strict and "
+        "MemorySafe hold for all byte strings of a reduced alphabet up to 8-11 items, all streams of at most 2-3 elements with every "
+        "truncation/substitution/extension, and MemorySafe for strings of any length at BufLen 8. Every classified stream is decoded by the "
+        "real mir-reduce.h (small-window build via hook H1, ASan/UBSan) and ok flag plus output compared. Real encoder outputs (all 2/3-symbol "
+        "strings, multi-buffer, long/repetitive/incompressible, binary-MIR payloads) are parsed by TLC (valid, canonical, Expand = input) and "
+        "round-tripped. Single-byte corruptions, truncations and extensions of real encodings must be rejected without a sanitizer report.",
+   note="The hash stays outside TLA+: the spec reports trailer and data, the harness completes the verdict with mir_hash_strict. Strict is "
+        "decided as accepted => complete valid stream with matching hash; a corrupted stream that is itself a valid alias with the same meaning "
+        "is tolerated only if TLC says so. Small-window tiers need hook H1. Production encodings over 3-12 KB are round-tripped but not "
+        "TLC-parsed. Trusted: TLC, clang sanitizers, harness/c12_reduce.c.",
+   technique="TLA+ decoder-shaped machine plus abstract stream spec, TLC BFS (VIEW for any-length MemorySafe); exhaustive replay into the real "
+             "decoder; TLC-side parsing of real encoder output from an ndjson file via IOEnv",
+   design="DESIGN.md §4 C12, §3.8"),
  "C13": dict(level="model_checking",
    text="MIRLink.tla is an implementation-shaped machine (environment table, to-link queue, bindings of linked modules, redefinition "
         "permission) with an independent definition history in which BindLatest, RedefRejected, UndefinedReported, LocalBinding and "
